@@ -130,6 +130,70 @@ class Ctx:
             self.divergences.append(Divergence(leg, inp, detail))
 
 
+    # ----- parallel map over forked worker processes -----
+    def export(self) -> Dict[str, Any]:
+        return {"evaluations": self.evaluations, "nontrivial": list(self.nontrivial), "hist": self.hist,
+                "samples": self.samples, "failures": [f.to_json() for f in self.failures],
+                "divergences": [d.to_json() for d in self.divergences], "traces_validated": self.traces_validated,
+                "model_lines": self.model_lines, "notes": self.notes, "legs": self.legs}
+
+    def merge(self, d: Dict[str, Any]):
+        self.evaluations += d["evaluations"]
+        for leg, v in d["legs"].items():
+            t = self.legs.setdefault(leg, {"cases": 0, "nontrivial": 0})
+            t["cases"] += v["cases"]
+        new = set(d["nontrivial"]) - self.nontrivial
+        self.nontrivial |= new
+        for k, v in d["hist"].items():
+            self.hist[k] = self.hist.get(k, 0) + v
+        for x in d["samples"]:
+            self.sample(x)
+        for f in d["failures"]:
+            self.fail(f["kind"], f["input"], f["what"])
+        for x in d["divergences"]:
+            self.diverge(x["leg"], x["input"], x["detail"])
+        self.traces_validated += d["traces_validated"]
+        self.model_lines += d["model_lines"]
+        self.notes.extend(d["notes"])
+
+    def pmap(self, fn: Callable[["Ctx", Any], Any], items: List[Any], nproc: Optional[int] = None) -> List[Any]:
+        """Runs fn(sub_ctx, item) for every item in forked worker processes; the sub-contexts'
+        accounting is merged into this one.  Returns the list of fn's results (must be picklable)."""
+        import multiprocessing as mp
+
+        nproc = nproc or int(os.environ.get("VERIF_NPROC", "0")) or min(14, os.cpu_count() or 1)
+        if nproc <= 1 or len(items) <= 1:
+            return [fn(self, it) for it in items]
+        chunks = [items[i::nproc] for i in range(nproc)]
+        chunks = [c for c in chunks if c]
+        fctx = mp.get_context("fork")
+        with fctx.Pool(len(chunks)) as pool:
+            parts = pool.map(_pmap_worker, [(fn, self.prop, self.tier, self.seed, self.escalated, c) for c in chunks])
+        results: List[Any] = [None] * len(items)
+        for ci, (exp, res) in enumerate(parts):
+            self.merge(exp)
+            for j, r in enumerate(res):
+                results[ci + j * len(chunks)] = r
+        # per-leg nontrivial counters are recomputed from the merged set size elsewhere; keep totals
+        return results
+
+
+def _pmap_worker(args):
+    fn, prop, tier, seed, escalated, chunk = args
+    sub = Ctx(prop, tier, seed)
+    sub.escalated = escalated
+    out = []
+    for it in chunk:
+        try:
+            out.append(fn(sub, it))
+        except Exception as e:  # machinery error inside a case: surface it as a note, not a verdict
+            import traceback
+            sub.note("internal error in case: " + traceback.format_exc()[-600:])
+            sub.hist["internal_errors"] = sub.hist.get("internal_errors", 0) + 1
+            out.append(None)
+    return sub.export(), out
+
+
 # ---------------------------------------------------------------------------------------------
 # known findings
 
